@@ -89,6 +89,14 @@ def run(tier):
                                       {"op": "accept", "i": 1, "x": 1, "big": True, "att": False},
                                       {"op": "recvn", "i": 1, "from": 2, "n": 59}, {"op": "collect", "i": 1},
                                       {"op": "exit", "i": 1}]}]
+            if mode in ("thread", "process") and name == "bfs-1srv":
+                # the model has no clock: a client may take any time between connecting and its first message while the server
+                # sits in accept (a stutter of any length between two actions of the behaviour)
+                for ms in ((2300,) if tier == "quick" else (2300, 5500, 11000)):
+                    use = use + [{"ops": [{"op": "new", "i": 1}, {"op": "accept.call", "i": 1}, {"op": "connect", "i": 1, "res": "ok"},
+                                          {"op": "sleep", "i": 1, "ms": ms},
+                                          {"op": "send", "i": 1, "res": "ok", "big": False, "att": False, "x": 1},
+                                          {"op": "accept.ret", "i": 1, "big": False, "att": False, "x": 1}]}]
             vs = replay_behs(use, variant, mode)
             nbad = 0
             for b, v in zip(use, vs):
